@@ -96,9 +96,11 @@ class Layout:
         self.kwsep = kwsep
         self.comment_between = comment_between
         self._n = 0
+        self.pieces: list[tuple] = []  # ("m", left_marker, right_marker) | ("t", uid) in source order
 
     def reset(self) -> None:
         self._n = 0
+        self.pieces = []
 
     def wc(self) -> str:
         i = self._n
@@ -236,6 +238,7 @@ def _pfilter(f: tuple, lay: Layout, pipe: str) -> str:
 
 def _tag(lay: Layout, inner: str) -> str:
     l, r = lay.wc(), lay.wc()
+    lay.pieces.append(("m", l, r))
     if lay.style == "tight":
         return "{%" + l + inner + r + "%}"
     if lay.style == "loose":
@@ -245,6 +248,7 @@ def _tag(lay: Layout, inner: str) -> str:
 
 def _out(lay: Layout, inner: str) -> str:
     l, r = lay.wc(), lay.wc()
+    lay.pieces.append(("m", l, r))
     if lay.style == "tight":
         return "{{" + l + inner + r + "}}"
     if lay.style == "loose":
@@ -281,6 +285,8 @@ def pbody(body: Body, lay: Layout) -> str:
 def pstmt(st: Stmt, lay: Layout) -> str:  # noqa: PLR0911, PLR0912, PLR0915
     k = st[0]
     if k == "text":
+        if len(st) > 2:
+            lay.pieces.append(("t", st[2]))
         return st[1]
     if k == "out":
         return _out(lay, pexpr(st[1], lay))
@@ -343,21 +349,24 @@ def pstmt(st: Stmt, lay: Layout) -> str:  # noqa: PLR0911, PLR0912, PLR0915
         return _tag(lay, "cycle " + grp + sep.join(pexpr(x, lay) for x in st[2]))
     if k == "raw":
         a, b, c, d = lay.wc(), lay.wc(), lay.wc(), lay.wc()
+        lay.pieces.append(("m", a, d))
+        if len(st) > 2:
+            lay.pieces.append(("raw", st[2], b, c))
         if lay.style == "tight":
             return "{%" + a + "raw" + b + "%}" + st[1] + "{%" + c + "endraw" + d + "%}"
         return "{%" + a + " raw " + b + "%}" + st[1] + "{%" + c + " endraw " + d + "%}"
     if k == "comment":
         kind, text = st[1], st[2]
+        l, r = lay.wc(), lay.wc()
+        lay.pieces.append(("m", l, r))
         if kind == "hash":
-            l, r = lay.wc(), lay.wc()
             return "{#" + l + text + r + "#}"
         if kind == "inline":
-            l, r = lay.wc(), lay.wc()
             return "{%" + l + " #" + text + r + "%}"
-        l, r = lay.wc(), lay.wc()
         return "{%" + l + " comment %}" + text + "{% endcomment " + r + "%}"
     if k == "liquid":
         l, r = lay.wc(), lay.wc()
+        lay.pieces.append(("m", l, r))
         lines = []
         for s2 in st[1]:
             lines.extend(_pline(s2, lay))
@@ -550,6 +559,41 @@ def map_text(body: Body, fn: Callable[[str], str]) -> Body:
     for st in body:
         if st[0] == "text":
             out.append(("text", fn(st[1])))
+        else:
+            out.append(st)
+    return tuple(out)
+
+
+def uniquify(body: Body, counter: list[int] | None = None) -> Body:
+    """Give every text / raw statement a unique id as a trailing element (the printer ignores it but records it in
+    Layout.pieces), so that a model can tell which markers are adjacent to which text in the printed source."""
+    counter = counter if counter is not None else [0]
+    out = []
+    for st in body:
+        k = st[0]
+        if k in ("text", "raw"):
+            counter[0] += 1
+            out.append((k, st[1], counter[0]))
+        elif k == "capture":
+            out.append((k, st[1], uniquify(st[2], counter)))
+        elif k == "if":
+            out.append((k, tuple((c, uniquify(b, counter)) for c, b in st[1]), None if st[2] is None else uniquify(st[2], counter)))
+        elif k == "unless":
+            out.append((k, st[1], uniquify(st[2], counter), tuple((c, uniquify(b, counter)) for c, b in st[3]), None if st[4] is None else uniquify(st[4], counter)))
+        elif k == "case":
+            out.append((k, st[1], tuple((v, uniquify(b, counter)) for v, b in st[2]), None if st[3] is None else uniquify(st[3], counter)))
+        elif k == "for":
+            out.append((k, st[1], st[2], st[3], uniquify(st[4], counter), None if st[5] is None else uniquify(st[5], counter)))
+        elif k == "tablerow":
+            out.append((k, st[1], st[2], st[3], uniquify(st[4], counter)))
+        elif k == "with":
+            out.append((k, st[1], uniquify(st[2], counter)))
+        elif k == "macro":
+            out.append((k, st[1], st[2], uniquify(st[3], counter)))
+        elif k == "block":
+            out.append((k, st[1], uniquify(st[2], counter), st[3]))
+        elif k == "liquid":
+            out.append(st)
         else:
             out.append(st)
     return tuple(out)
